@@ -73,9 +73,12 @@ def setup():
 
 # ---------------------------------------------------------------------------------- E1: Verus
 
-def assemble(unit_dir):
-    rc, out, err, dt = sh([ASSEMBLE, "assemble", "--src", SRC, "--contracts", os.path.join(ROOT, "contracts"),
-                           "--prelude", os.path.join(ROOT, "specs", "prelude.rs"), "--out", unit_dir])
+def assemble(unit_dir, demote=()):
+    cmd = [ASSEMBLE, "assemble", "--src", SRC, "--contracts", os.path.join(ROOT, "contracts"),
+           "--prelude", os.path.join(ROOT, "specs", "prelude.rs"), "--out", unit_dir]
+    if demote:
+        cmd += ["--demote", ";".join(sorted(demote))]
+    rc, out, err, dt = sh(cmd)
     return rc, err, dt
 
 
@@ -108,10 +111,12 @@ def clause_lines(text):
     return n
 
 
-def run_verus(unit_dir, rlimit=30, multiple_errors=8):
+def run_verus(unit_dir, rlimit=30, multiple_errors=8, smt_seed=None):
     cmd = ["verus", os.path.join(unit_dir, "root.rs")] + ext_flags() + [
         "--error-format=json", "--output-json", "--time-expanded", "--triggers-mode", "silent",
         "--multiple-errors", str(multiple_errors), "--rlimit", str(rlimit)]
+    if smt_seed is not None:
+        cmd += ["--smt-option", "smt.random_seed=%d" % smt_seed]
     rc, out, err, dt = sh(cmd, cwd=unit_dir, timeout=1800)
     diags = []
     for ln in err.splitlines():
@@ -129,11 +134,31 @@ def run_verus(unit_dir, rlimit=30, multiple_errors=8):
 
 
 def e1(unit_dir):
+    """E1 with automatic demotion: if Verus *rejects* a construct inside a function under contract
+    (e.g. a change introduced an iterator adapter or format!), that function alone is demoted to
+    external_body (its obligations become undecided) and the unit is verified again."""
+    demote = set()
+    for _ in range(4):
+        res = e1_once(unit_dir, demote)
+        if res["status"] != "rejected":
+            return res
+        new = set()
+        for rj in res["rejected"]:
+            if rj.get("fn") and rj.get("has_stanza"):
+                new.add("%s|%s|%s" % (rj["file"], rj["item"], rj["fn"]))
+        new -= demote
+        if not new:
+            return res
+        demote |= new
+    return res
+
+
+def e1_once(unit_dir, demote=()):
     """Assemble the unit from REPO's working tree, verify it, attribute failures."""
     res = {"status": "ok", "failures": [], "rejected": [], "lost": [], "fns": [], "canary_failed": False}
     if os.path.isdir(unit_dir):
         shutil.rmtree(unit_dir)
-    rc, err, dt = assemble(unit_dir)
+    rc, err, dt = assemble(unit_dir, demote)
     res["assemble_s"] = dt
     if rc != 0:
         res["status"] = "assemble-error"
@@ -219,6 +244,7 @@ def e1(unit_dir):
                 clause = {"vspec": p.get("vspec"), "vspec_line": p.get("vspec_line"), "kind": p["kind"],
                           "text": "\n".join(t["text"] for t in s.get("text", []))[:400]}
         rec = {"message": msg, "fn": (fn or {}).get("fn"), "item": (fn or {}).get("item"), "file": (fn or {}).get("file"),
+               "has_stanza": (fn or {}).get("has_stanza") == "true",
                "tags": [t for t in ((fn or {}).get("tags", "") or "").split(",") if t],
                "clause": clause, "rendered": rendered[:3000],
                "primary": next(({"file": rel(s["file_name"]), "line": s["line_start"],
@@ -322,6 +348,19 @@ def check(pid, tier):
                                        "obligation": f, "concrete": None})
             if r1["status"] == "ok" and not e1_fns and spec.get("e1_required", True):
                 undecided.append("vacuity guard: no function under contract carries tag %s" % pid)
+
+    # thorough tier: the proofs must be stable under different SMT seeds (an unstable proof is
+    # reported as undecided, never as a violation)
+    if r1 is not None and tier == "thorough" and r1["status"] == "ok":
+        base_fail = sorted({(f["file"], f["item"], f["fn"]) for f in r1["failures"]})
+        stab = []
+        for sd in (1, 2):
+            v = run_verus(unit_dir, smt_seed=sd)
+            n_err = (v["summary"].get("verification-results", {}) or {}).get("errors")
+            stab.append({"smt_seed": sd, "errors": n_err, "wall_s": round(v["wall_s"], 1)})
+            if n_err is None or n_err != r1["verus"].get("errors"):
+                undecided.append("proof instability: SMT seed %d gives %s errors, the default run %s" % (sd, n_err, r1["verus"].get("errors")))
+        r1["stability"] = stab
 
     # ---------------- E3 (Kani)
     r3 = None
@@ -429,7 +468,7 @@ def build_evidence(pid, spec, tier, seed, r1, r2, r3, e1_fns, n_viol, undecided,
         cov["solver_time_ms"] = {"smt": t.get("smt"), "total-verify": t.get("verify"), "total": t.get("total")}
         cov["normalisations"] = r1.get("normalisations", [])
         cov["lost_anchors"] = r1.get("lost", [])
-        cov["guards"] = {"canary_refuted": r1.get("canary_failed"), "obligations_nonzero": obligations > 0}
+        cov["guards"] = {"canary_refuted": r1.get("canary_failed"), "obligations_nonzero": obligations > 0, "smt_seed_stability": r1.get("stability")}
         if os.path.isdir(unit_dir):
             counts, where = scan_assumptions(unit_dir)
             cov["assumption_scan"] = {"counts": counts, "outside_prelude": {k: {f: n for f, n in w.items() if f != "vx.rs"} for k, w in where.items()}}
